@@ -102,6 +102,12 @@ func ParseNumeric(
 	if intLit := numLit.INTEGER_LITERAL(); intLit != nil {
 		intValue, err := strconv.ParseInt(intLit.GetText(), 10, 64)
 		if err != nil {
+			// Literals above math.MaxInt64 are still valid u64 values.
+			if targetType.Kind == types.KindU64 && !negate && numLit.IDENTIFIER() == nil {
+				if uintValue, uErr := strconv.ParseUint(intLit.GetText(), 10, 64); uErr == nil {
+					return ParsedValue{Value: uintValue, Type: types.U64()}, nil
+				}
+			}
 			return ParsedValue{}, errors.Wrapf(err, "invalid integer literal: %s", intLit.GetText())
 		}
 		if negate {
